@@ -117,6 +117,21 @@ func (d *ownDom) Visit(ip *Interp, fr *Frame, st *State, n ast.Node) *State {
 				s = s.set(ownKey(ip, o), "SL")
 			}
 		}
+	case LoopIter:
+		// the loop variable is about to be rebound: a node this iteration took out of the idle list (Remove returned
+		// true / PopBack was non-nil) and neither stopped, recycled, pushed back nor handed a job is lost — its
+		// goroutine stays parked for ever, invisible to the dispatcher, the reaper and Stop
+		if rs, ok := x.Stmt.(*ast.RangeStmt); ok {
+			if id, ok := rs.Value.(*ast.Ident); ok {
+				if o := info.ObjectOf(id); o != nil && isPoolNodePtr(o.Type()) {
+					if s.get(ownKey(ip, o)) == "O" && s.get("acq:"+ownKey(ip, o)) != "" {
+						d.c.Rep.fail(d.rule, fr.Fn.Short(), "node "+o.Name()+" taken out of the idle list and dropped", d.c.P.pos(rs),
+							fmt.Sprintf("a loop iteration takes pool node %q out of the idle list (Remove returned true) and moves on without stopping, recycling or re-inserting it: the node's goroutine stays parked for ever, outside the list (path %s)", o.Name(), fr.Path()))
+					}
+					s = s.set(ownKey(ip, o), "S").set("acq:"+ownKey(ip, o), "")
+				}
+			}
+		}
 	case *ast.RangeStmt:
 		// for _, node := range <snapshot>
 		if id, ok := x.Value.(*ast.Ident); ok {
@@ -139,6 +154,23 @@ func isSnapshot(info *types.Info, e ast.Expr) bool {
 	return false
 }
 
+// Exit: at the end of the analysed function no node acquired on this path is still held untouched.
+func (d *ownDom) Exit(ip *Interp, fr *Frame, st *State, ret *ast.ReturnStmt, vals []Value) {
+	if fr.Caller != nil {
+		return
+	}
+	s := st.Dom.(kv)
+	for _, k := range s.keys() {
+		if !strings.HasPrefix(k, "acq:") || s.get(k) == "" {
+			continue
+		}
+		if s.get(k[4:]) == "O" {
+			d.c.Rep.fail(d.rule, fr.Fn.Short(), "node "+s.get(k)+" taken out of the idle list and dropped", d.c.retPos(fr, ret),
+				fmt.Sprintf("%s returns on a path on which it took pool node %q out of the idle list and neither stopped, recycled, re-inserted nor used it: the node's goroutine stays parked for ever", fr.Fn.Short(), s.get(k)))
+		}
+	}
+}
+
 func (d *ownDom) Cond(ip *Interp, fr *Frame, st *State, e ast.Expr, branch bool) (*State, bool) {
 	if e == nil {
 		return st, true
@@ -156,7 +188,7 @@ func (d *ownDom) Cond(ip *Interp, fr *Frame, st *State, e ast.Expr, branch bool)
 			if o := info.ObjectOf(id); o != nil && s.get(ownKey(ip, o)) == "P" {
 				nonNil := (be.Op == token.NEQ) == branch
 				if nonNil {
-					s = s.set(ownKey(ip, o), "O")
+					s = s.set(ownKey(ip, o), "O").set("acq:"+ownKey(ip, o), o.Name())
 				} else {
 					s = s.set(ownKey(ip, o), "")
 				}
@@ -166,13 +198,13 @@ func (d *ownDom) Cond(ip *Interp, fr *Frame, st *State, e ast.Expr, branch bool)
 	// result of Remove(n): directly or through a local
 	if v := ip.pureValue(fr, st, e); v.Kind == VTok && len(v.S) > 8 && v.S[:8] == "removed:" {
 		if branch {
-			s = s.set(v.S[8:], "O")
+			s = s.set(v.S[8:], "O").set("acq:"+v.S[8:], "node")
 		}
 	}
 	if call, ok := e.(*ast.CallExpr); ok {
 		if ce := resolveCallee(info, call); ce.Key == kRemove && len(call.Args) == 1 && branch {
 			if o := rootIdent(info, call.Args[0]); o != nil {
-				s = s.set(ownKey(ip, o), "O")
+				s = s.set(ownKey(ip, o), "O").set("acq:"+ownKey(ip, o), o.Name())
 			}
 		}
 	}
@@ -196,12 +228,15 @@ func (d *ownDom) Call(ip *Interp, fr *Frame, st *State, call *ast.CallExpr, c *C
 		}
 		state := s.get(ownKey(ip, o))
 		inst := fmt.Sprintf("%s(%s) in %s", what, o.Name(), fr.Path())
+		if state == "K" && (what == "Cache.Put" || what == "Stop") {
+			state = "O"
+		}
 		if state == "O" {
 			d.c.Rep.ok(d.rule, inst, d.c.P.pos(call), "node is owned on every path reaching this call", true)
 			return o, true
 		}
 		why := map[string]string{"": "its origin gives no ownership", "S": "it was taken from a NodeSlice() snapshot and Remove() was not observed to return true on this path",
-			"P": "it is a PopBack result not yet tested for nil", "R": "it was already released (PushNode/Cache.Put)", "T": "it was already handed to the pool goroutine (Send)"}[state]
+			"P": "it is a PopBack result not yet tested for nil", "R": "it was already released (PushNode/Cache.Put)", "T": "it was already handed to the pool goroutine (Send)", "K": "it was already stopped (its goroutine ends): it can only be recycled (Cache.Put), a job sent to it or a return to the idle list would strand the next job"}[state]
 		d.c.Rep.fail(d.rule, fr.Fn.Short(), what+" on node "+o.Name()+" without ownership", d.c.P.pos(call),
 			fmt.Sprintf("%s on pool node %q that this path does not own: %s (path %s)", what, o.Name(), why, fr.Path()))
 		return o, false
@@ -217,9 +252,12 @@ func (d *ownDom) Call(ip *Interp, fr *Frame, st *State, call *ast.CallExpr, c *C
 		if sel, ok := ast.Unparen(recv).(*ast.SelectorExpr); ok {
 			recv = sel.X
 		}
-		o, _ := require(what, recv)
+		o, okReq := require(what, recv)
 		if o != nil && c.Key == kNodeSend {
 			s = s.set(ownKey(ip, o), "T")
+		}
+		if o != nil && c.Key == kNodeStop && okReq {
+			s = s.set(ownKey(ip, o), "K")
 		}
 		return []Out{{St: st.WithDom(s)}}, true
 	case kPushNode, kPoolPut:
